@@ -174,8 +174,8 @@ func classify(err error) string {
 var msgSites = []struct{ needle, slug string }{
 	{"has no field", "no-field"},
 	{"no field ", "no-field"},
-	{"is already set", "already-set"},
 	{"can not be set", "oneof-conflict"},
+	{"is already set", "already-set"},
 	{"already exists in map", "map-key-exists"},
 	{"enum value", "enum-value"},
 	{"unsupported scalar type", "unsupported-scalar"},
@@ -370,7 +370,7 @@ func (r *Runner) Walk(filename, source string) *Result {
 		}
 	}
 	res.Line = "ok " + w.dump
-	res.Debug = fmt.Sprintf("full: %v", fullErr)
+	res.Debug = fmt.Sprintf("full: %v", fullErr) + res.Debug
 	return res
 }
 
@@ -388,6 +388,7 @@ func (r *Runner) validationPositions(res *Result, fullErr error, lines srcLines)
 			continue
 		}
 		p := pos{true, e.Pos.Start.Line, e.Pos.Start.Column, e.Pos.End.Line, e.Pos.End.Column}
+		res.Debug += fmt.Sprintf(" [validation error at %s ctx %v]", p, e.Ctx)
 		switch {
 		case lines.inside(p):
 			res.count("full.valpos.inside")
